@@ -31,12 +31,15 @@ type Env struct {
 	Spec     *WSpec
 	Fault    *Fault
 	Barriers map[string]*barrier
-	Cmds     []string // command lines seen at the exec seam in this execution
+	Cmds     []string          // command lines seen at the exec seam in this execution
+	lastCmd  string
+	CmdByKey map[string]string // task key -> the command scipipe handed over (between "cd tmp &&" and "&& cd ..")
 }
 
 func (e *Env) reset() {
 	e.Barriers = map[string]*barrier{}
 	e.Cmds = nil
+	e.CmdByKey = map[string]string{}
 }
 
 // barrier: k tasks rendezvous inside their bodies; if the library serialises them the
@@ -213,6 +216,7 @@ func (e *Env) simExec(name string, args []string) ([]byte, error, bool) {
 			}
 			cwd = nd
 		case "vcmd":
+			e.lastCmd = part
 			if err := e.vcmd(cwd, f[1:]); err != nil {
 				return []byte(err.Error()), err, true
 			}
@@ -261,6 +265,7 @@ func (e *Env) vcmd(cwd string, f []string) error {
 		finalIn[port] = filepath.Clean(filepath.Join(cwd, p))
 	}
 	key := taskKey(proc, finalIn, params)
+	e.CmdByKey[key] = e.lastCmd
 	vs.Event("S:" + key)
 	ps := e.Spec.proc(proc)
 	if ps != nil && ps.Barrier != "" {
